@@ -6,6 +6,7 @@ import (
 	"os"
 	"os/exec"
 	"path/filepath"
+	"runtime/debug"
 	"strconv"
 	"strings"
 	"syscall"
@@ -95,6 +96,11 @@ func main() {
 var stopAtFirst bool
 
 func cmdWorker(args []string) {
+	// A soft memory limit for every worker process: the Go runtime collects when the heap
+	// approaches it even where the automatic collector is switched off (hist workers), so no
+	// path of the harness - minimising a run of tens of thousands of operations, say - can
+	// take the machine down. 16 workers x 3 GB stays well inside the sandbox's memory.
+	debug.SetMemoryLimit(3 << 30)
 	fs := flag.NewFlagSet("worker", flag.ExitOnError)
 	engine := fs.String("engine", "", "")
 	prop := fs.String("prop", "", "")
